@@ -7,9 +7,18 @@ import (
 )
 
 func evalEmbeddedStr(node *ast.EmbeddedStr, env *object.Env) object.PanObject {
-	// cache strs because embeddedstr ast is reverse order of source code
-	evaluatedStrs := []string{node.Latter}
+	// NOTE: embeddedstr ast is reverse order of source code.
+	// collect pieces first so that embedded exprs are evaluated in order of source code
+	pieces := []*ast.FormerStrPiece{}
 	for n := node.Former; n != nil; n = n.Former {
+		pieces = append(pieces, n)
+	}
+
+	var out bytes.Buffer
+
+	// NOTE: the last element of pieces is the first piece in source code
+	for i := len(pieces) - 1; i >= 0; i-- {
+		n := pieces[i]
 		evaluated := Eval(n.Expr, env)
 		if err, ok := evaluated.(*object.PanErr); ok {
 			return appendStackTrace(err, node.Source())
@@ -26,16 +35,11 @@ func evalEmbeddedStr(node *ast.EmbeddedStr, env *object.Env) object.PanObject {
 			return appendStackTrace(err, node.Source())
 		}
 
-		// prepend
-		evaluatedStrs = append(
-			[]string{n.Str, evaluatedStr.Value}, evaluatedStrs...)
+		out.WriteString(n.Str)
+		out.WriteString(evaluatedStr.Value)
 	}
 
-	var out bytes.Buffer
-
-	for _, str := range evaluatedStrs {
-		out.WriteString(str)
-	}
+	out.WriteString(node.Latter)
 
 	return object.NewPanStr(out.String())
 }
